@@ -218,6 +218,11 @@ func devSearch(r *mc.Run, cfgs []NamedConfig, cov map[string]any, only string) {
 				continue
 			}
 			nc := nc
+			if r.Expired() {
+				r.Exhaustive = false
+				per = append(per, map[string]any{"config": nc.Name, "executions": 0, "deviation_bound": k, "horizon_rounds": rounds, "complete": false, "note": "not started: soft deadline"})
+				continue
+			}
 			outcomes := map[string]int{}
 			var mu sync.Mutex
 			newBody := func() func(c *mc.Chooser) {
